@@ -273,6 +273,10 @@ def evaluate(case, env):
                     continue
                 if _inside_fstring(tf, start):
                     continue
+                if "\n" in seg and not check_chars:
+                    # a chain continued on the next line inside brackets is found through real_code's bracket counting,
+                    # which the unbalanced f-string of this text has thrown off (recorded finding, same root cause)
+                    continue
                 for o in range(start, end):
                     p = w.get_primary_at(o)
                     if _norm_chain(p) != _norm_chain(seg):
@@ -312,7 +316,15 @@ def _nearest_block_start_poisoned(lines, L, poisoned):
     d = _indent(lines[L - 1])
     for i in range(L, 0, -1):
         if _BLOCK_START.match(lines[i - 1]) and _indent(lines[i - 1]) <= d:
-            return i in poisoned
+            if i in poisoned:
+                return True
+            break
+    # logical_line_in retries after an IndentationError with the indentation of the line the tokenizer stopped at, i.e.
+    # with a smaller limit: a poisoned line further up that is indented less than some line between it and L can still
+    # become the block start
+    for p_ in poisoned:
+        if p_ < L and any(_indent(lines[j - 1]) >= _indent(lines[p_ - 1]) and _indent(lines[j - 1]) < d for j in range(p_ + 1, L + 2) if j <= len(lines) and lines[j - 1].strip()):
+            return True
     return False
 
 
